@@ -403,7 +403,7 @@ theorem runHistory_safe (ps : List Pkt) (s : St) (b : Buf) (n : Nat) (hs : s.Ok)
   | cons p rest ih =>
     unfold runHistory
     apply safe_bind; apply safe_onBuf
-    apply handlePacketSt_safe _ _ (show St.Ok { s with ev := [] } from hs)
+    apply handlePacketSt_safe _ _ (show St.Ok { s with ev := [], txPlan := p.sent } from hs)
     intro s' b' n' hs'
     dsimp only
     apply safe_bind
